@@ -103,7 +103,7 @@ class ArithmeticAtomicPulseTemplate(AtomicPulseTemplate):
 
     @property
     def parameter_names(self):
-        return self.lhs.parameter_names | self.rhs.parameter_names
+        return self.lhs.parameter_names | self.rhs.parameter_names | self.measurement_parameters
 
     @property
     def measurement_names(self):
